@@ -12,7 +12,7 @@
 EXTENDS MCBase
 
 CONSTANTS Ls, Ms,        \* sets of vector lengths (signer / committed)
-          Fam           \* "sig", "proof", "blind" or "all": which family of behaviours to enumerate
+          Fam           \* "sig", "proof", "blind", "all" or "sweep": which family of behaviours to enumerate
 
 Pat(L, off) == [j \in 1 .. L |-> << ((j + off) % 3) + 1 >>]     \* messages <<1>>, <<2>>, <<3>> repeating
 FRESH == << 9 >>
@@ -119,7 +119,30 @@ BlindProofEdit ==
      \/ Step(BlindProofVerify(PH, 1, p.s, p.hdr, p.ph, Len(p.msgs) + 1, dm, cm, VD(p), VCD(p)))
   /\ pc' = "done"
 
+\* ---- sweep: every length of a range exactly once (honest runs only) -----------------------------------
+\* Thresholds hide anywhere (a word size, a window of a multi-scalar multiplication, a buffer limit): the
+\* sweep signs, verifies, proves and verifies a proof for EVERY L in Ls, and commits, blind-signs, verifies
+\* and proves for every M in Ms (suites alternate with the length).
+SuiteOf(n) == IF n % 2 = 0 THEN "sha" ELSE "shake"
+SwSign == /\ pc = "go" /\ \E L \in Ls : Step(Sign(1, SuiteOf(L), << 1 >>, Pat(L, 0))) /\ pc' = "swsig"
+SwVerify == /\ pc = "swsig" /\ Step(Verify(SH, 1, objs[SH].s, objs[SH].hdr, objs[SH].msgs)) /\ pc' = "done"
+SwGen == /\ pc = "swsig"
+         /\ LET o == objs[SH]  L == Len(o.msgs) IN
+            \E D \in {IF L = 0 THEN {} ELSE {L - 1}, IF L >= 2 THEN {0, L \div 2} ELSE {}} :
+               Step(ProofGen(SH, 1, o.s, o.hdr, << 2 >>, o.msgs, SortSet(D)))
+         /\ pc' = "proof"
+SwCommit == /\ pc = "go" /\ \E M \in Ms : Step(CommitA(SuiteOf(M), Pat(M, 1))) /\ pc' = "swcommit"
+SwBlindSign == /\ pc = "swcommit" /\ \E L \in {1} : Step(BlindSignA(1, objs[1].s, 1, << 1 >>, Pat(L, 0))) /\ pc' = "swbsig"
+SwBlindVerify == /\ pc = "swbsig"
+                 /\ LET o == objs[SH] IN Step(VerifyBlind(SH, 1, o.s, o.hdr, o.msgs, objs[1].cms, BlOf(1)))
+                 /\ pc' = "done"
+SwBlindGen == /\ pc = "swbsig"
+              /\ LET o == objs[SH]  c == objs[1].cms IN
+                 Step(BlindProofGen(SH, 1, o.s, o.hdr, << 2 >>, o.msgs, c, << >>, SortSet(IF Len(c) = 0 THEN {} ELSE {Len(c) - 1}), BlOf(1)))
+              /\ pc' = "bproof"
+
 Next == \/ Setup
+        \/ (Fam = "sweep" /\ (SwSign \/ SwVerify \/ SwGen \/ ProofHonest \/ SwCommit \/ SwBlindSign \/ SwBlindVerify \/ SwBlindGen \/ BlindProofHonest))
         \/ (Fam \in {"sig", "proof", "all"} /\ DoSign)
         \/ (Fam \in {"sig", "all"} /\ (SigHonest \/ SigEdit \/ SigUpdate \/ AfterUpdate))
         \/ (Fam \in {"proof", "all"} /\ (DoGen \/ ProofHonest \/ ProofEdit \/ ProofResize \/ AfterResize))
